@@ -180,7 +180,7 @@ def run_trace_leg(check, scratch, name, gen, want, nshards=None, classify=None, 
             check.sample(s)
         for tid, clause, case in r['fails']:
             key = classify(tid, clause, case) if classify else clause
-            check.fail(tid, clause, case=case, key=key)
+            check.fail(tid, clause, case=case, key=key, desc=describe_case(case))
         ndrift += len(r['drift'])
         for t in r['drift'][:3]:
             check.note('drift (reference model differs from code, contract holds): %s' % '|'.join(t))
@@ -188,3 +188,73 @@ def run_trace_leg(check, scratch, name, gen, want, nshards=None, classify=None, 
                                    'failing_verdicts': sum(len(r['fails']) for r in results), 'drift': ndrift,
                                    'tlc_wall_s': round(sum(r['wall'] for r in results), 1)}
     return results
+
+
+# ---------------------------------------------------------------------------------------------------
+# running one abstract case (op, parameter lists, flags) through the real code
+def apply_op(op, sigs, fl, funcs=None):
+    from sigtools import signatures
+    if op == 'merge':
+        return signatures.merge(*sigs)
+    if op == 'embed':
+        return signatures.embed(*sigs, use_varargs=fl['uva'], use_varkwargs=fl['uvk'])
+    if op == 'mask':
+        return signatures.mask(sigs[0], fl['n'], *fl['names'], hide_args=fl['ha'], hide_kwargs=fl['hk'],
+                               hide_varargs=fl['hva'], hide_varkwargs=fl['hvk'])
+    if op == 'forwards':
+        return signatures.forwards(sigs[0], sigs[1], fl['n'], *fl['names'], hide_args=fl['ha'], hide_kwargs=fl['hk'],
+                                   use_varargs=fl['uva'], use_varkwargs=fl['uvk'], partial=fl['partial'])
+    raise ValueError(op)
+
+
+class CaseUniverse(Universe):
+    """functions built on demand from explicit parameter lists (model counterexamples, replays)"""
+
+    def __init__(self):
+        Universe.__init__(self, [], 0)
+
+
+def case_event(u, tid, op, pss, fl=None, pure=False, funcs=None):
+    """pss: list of abstract parameter lists; builds fresh functions f1..fn, runs op on their signatures"""
+    from sigtools import signatures
+    fl = flags(**(fl or {}))
+    funcs = funcs or [absig.make_func(ps, name='f%d' % (k + 1)) for k, ps in enumerate(pss)]
+    sigs = [signatures.signature(f) for f in funcs]
+    return event(u, tid, op, sigs, lambda: apply_op(op, sigs, fl), fl=fl, pure=pure, case={'op': op, 'ins': pss, 'fl': fl})
+
+
+def model_leg(check, scratch, name, constants, want, *, simulate=None, depth=None, seed=None, timeout=1800,
+              workers=None, module='SigMachine', invariants=(), constraints=('Report',)):
+    """runs the SigMachine model; returns the deduplicated model-level counterexamples [(clause, case)]"""
+    d = scratch.sub('model-' + name)
+    consts = dict(constants)
+    consts['Want'] = set(want)
+    cfg = tlc.write_cfg(os.path.join(d, module + '.cfg'), spec='Spec', constants=consts,
+                        invariants=invariants, constraints=constraints)
+    r = tlc.run_tlc(module, cfg, scratch, workers=workers or tlc.NCPU, simulate=simulate, depth=depth, seed=seed,
+                    timeout=timeout, xmx='12g')
+    check.add_model_run(name, r)
+    cex = {}
+    for fields in r.lines('CEX'):
+        clause, js = fields[0], '|'.join(fields[1:])
+        try:
+            case = json.loads(js)
+        except ValueError:
+            check.error('unparsable CEX line from model %s: %r' % (name, js[:200]))
+            continue
+        cex.setdefault((clause, json.dumps(case, sort_keys=True)), case)
+    check.legs[name]['model_counterexamples'] = len(cex)
+    check.legs[name]['mode'] = 'simulate %s' % simulate if simulate else 'exhaustive'
+    return [(k[0], v) for k, v in cex.items()]
+
+
+def sig_text(ps):
+    return absig.sig_str(ps)
+
+
+def describe_case(case):
+    if not case:
+        return ''
+    return '%s(%s)%s' % (case.get('op', '?'), ', '.join(sig_text(ps) for ps in case.get('ins', [])),
+                         '' if case.get('fl') in (None, FLAGS0) else ' ' + json.dumps(
+                             {k: v for k, v in case['fl'].items() if FLAGS0.get(k) != v}, sort_keys=True))
